@@ -221,6 +221,8 @@ structure JState where
   poisoned : List (String × List (String × Nat)) := [] -- saved binary ↦ parents that were out of date when it was compiled
   incsearch : List (String × List String) := []  -- program ↦ the candidates of one include directive, in search order
   resolved : List (String × List (Option String)) := [] -- saved binary ↦ what each of its directives resolved to then
+  resolvedParents : List (String × List (String × List (Option String))) := []
+    -- saved binary ↦ for every program it inherits (at any depth): what that program's directives resolved to then
   deriving Inhabited
 
 def JState.flag (s : JState) (v : String) : JState := { s with bad := v :: s.bad }
@@ -467,6 +469,12 @@ def traceLine (s : JState) (unitSeen : Nat) (line : String) : JState × Nat :=
     -- been loaded again since: the layout in the binary is not the one the current sources give
     let s := (((s.poisoned.lookup name).getD []).filter (fun q => ((s.mem.lookup q.1).map (·.1)) != some q.2)).foldl
       (fun s q => s.flag s!"stale-binary-used {name} dep=compiled-against-older-version-of:{q.1}") s
+    -- the same for the directives of the programs it inherits: the binary was laid out for parents built from those files
+    let s :=
+      ((s.resolvedParents.lookup name).getD []).foldl (fun (s : JState) (q : String × List (Option String)) =>
+        ((q.2.zip (resolveNow s q.1)).filter (fun (p : Option String × Option String) => p.1 != p.2)).foldl
+          (fun (s : JState) (p : Option String × Option String) =>
+            s.flag s!"stale-binary-used {name} dep=include-of-inherited-shadowed-by:{p.2.getD "?"}:{q.1}") s) s
     -- an include directive that would now find another file (a new file earlier in the search path)
     let s :=
       match s.resolved.lookup name with
@@ -485,7 +493,9 @@ def traceLine (s : JState) (unitSeen : Nat) (line : String) : JState × Nat :=
       let dm := s.damaged.filter (fun x => x != name)
       let fg := s.foreign.filter (fun x => x != name)
       ({ s with binT := setKey s.binT name t, damaged := dm, foreign := fg, poisoned := setKey s.poisoned name old,
-                resolved := setKey s.resolved name (resolveNow s name) },
+                resolved := setKey s.resolved name (resolveNow s name),
+                resolvedParents := setKey s.resolvedParents name
+                  (((declOf s name).inherits ++ indirectInherits s name).eraseDups.map (fun q => (q, resolveNow s q))) },
        unitSeen)
     | none =>
       -- not written: right only when the program was compiled against an out-of-date parent or the master refuses
